@@ -56,7 +56,9 @@ def valid_response(rng, peers):
     out = DNSOutgoing(0x8400)
     s = rng.choice(peers)
     o = c03.own_records(s)
-    recs = [o['ptr'], o['srv'], o['txt']] + o['addrs'] + ([o['nsec']] if o['nsec'] else [])
+    # (the same instance also listed under a subtype of the browsed type: two pointer names, one alias)
+    recs = [o['ptr'], o['srv'], o['txt'], rec('KPointer', '_x._sub.' + s['type'], 12, 1, alias=s['name'], ttl=o['ptr']['ttl'])] + o['addrs'] + \
+        ([o['nsec']] if o['nsec'] else [])
     recs = rng.sample(recs, rng.randint(1, len(recs)))
     if rng.random() < 0.2:
         recs.append(rec('KHinfo', s['server'], 13, 0x8001, cpu='cpu', os='os', ttl=120))
@@ -232,6 +234,7 @@ def gen_scenario(rng, v6=False):
                   dict(dt=rng.choice([10, 300, 1200]), kind='response', data=ann.packets()[0], src='fe80::7', port=5353)] + \
                  [dict(d, dt=d['dt'] + 1500, src='fe80::' + d['src'][-1]) for d in stream]
     return dict(svcs=svcs, peers=peers, stream=stream, browser=rng.random() < 0.7, lookup=True if v6 else rng.random() < 0.5, v6=v6,
+                long=rng.random() < 0.2,
                 mcast=[rng.choice([20, 70, 120]) for _ in range(60)], tcd=[rng.choice([400, 450, 500]) for _ in range(20)],
                 fq=[rng.choice([20, 57, 120]) for _ in range(6)])
 
@@ -307,7 +310,9 @@ def run_scenario(sc):
                 with watchdog(res, d):
                     sim.net.inject(a, d['data'], src)
                 res['reactions'].append((d['kind'], len(d['data']), len(sim.net.log) - mark, len(nr.labels) - nlab))
-            await sim.sleep(4000)
+            # (in one scenario out of five an hour passes first: whatever the stream left scheduled - refresh queries at 75..95 % of the pointers'
+            # lifetimes, expiries, the periodic cache cleanup - runs before the liveness probe)
+            await sim.sleep(3600 * 1000 if sc.get('long') else 4000)
             # --- is it still alive? a fresh query must be answered, a fresh announcement must reach the browser ---
             res['t_alive'] = sim.now
             mark = len(sim.net.log)
